@@ -93,13 +93,17 @@ class C05(Check):
             'permuted order and with another chunk size.  Class degenerate: all points at exactly one RA (meridian strips, '
             'two points at one RA, RA 0, strips into the polar cap) or at exactly one Dec.  After every case the harness '
             'runs the canary sequence (fixed polar, equal-RA, seam, equal-Dec inputs, polar before equal-RA) in the same '
-            'process, so that what a call leaves behind is seen by the next call.  Non-trivial: >= 1 group of >= 2 members whose members have '
+            'process, so that what a call leaves behind is seen by the next call.  Class flavours: whole-degree lattice '
+            'positions handed over as int64/int32/int16/unsigned, float32, big-endian, strided, reversed-view and read-only '
+            'arrays (RA only, Dec only, both), judged by the same oracle (band max(1e-5 rel, 3e-3 deg) when numpy converts the '
+            'argument to radians in float32), arguments compared bytewise afterwards.  Non-trivial: >= 1 group of >= 2 members whose members have '
             'different home chunks; distinct by hash of the materialised case.')
     ASSUMPTIONS = ['separations from a long-double chord formula; a case is undecided only if linking or not linking the '
                    'pairs within max(1e-9 relative, 1e-11 deg) of L changes the partition',
                    'the mutual consistency of the four arrays is checked on every case, decided or not',
                    'the order in which next[] visits the members of a group is not prescribed by the property']
-    REQUIRED_COUNTERS = ('canary_sequences', 'canary_inputs_judged', 'equal_ra_cases', 'equal_dec_cases', 'groups_spanning_chunks', 'undecided_cases', 'band_pairs_harmless', 'replicated_points', 'chunk_fof_calls', 'perm_variants',
+    REQUIRED_COUNTERS = ('flavour_calls', 'flavour_int_calls', 'flavour_single_precision_calls', 'flavour_layout_calls',
+                         'flavour_args_unchanged_checks', 'flavour_multi_member_groups', 'canary_sequences', 'canary_inputs_judged', 'equal_ra_cases', 'equal_dec_cases', 'groups_spanning_chunks', 'undecided_cases', 'band_pairs_harmless', 'replicated_points', 'chunk_fof_calls', 'perm_variants',
                          'chunksize_variants', 'enforced_minimum_chunksize', 'near_threshold_links', 'seam_cases',
                          'polar_slice_cases', 'multi_member_groups', 'lattice_cases')
 
@@ -172,6 +176,7 @@ class C05(Check):
             'clamped': 300 if q else 5000,
             'lattice': 900 if q else LAT_TOTAL,
             'canary_inputs': len(CANARIES),
+            'flavours': 400 if q else 8000,
             'degenerate': 240 if q else 5000,
         }
 
@@ -327,6 +332,34 @@ class C05(Check):
         name = sorted(CANARIES)[i % len(CANARIES)]
         inp = CANARIES[name][0]
         return {'L': inp['L'], 'cs': None, 'ra': list(inp['ra']), 'dec': list(inp['dec']), 'canary': name, 'cs_floor': 0.05}
+
+    def gen_flavours(self, rng, nr, i):
+        """whole-degree lattice positions handed over as int64/int32/int16/unsigned, float32, big-endian, strided,
+        reversed-view and read-only arrays (RA only, Dec only, both); each flavoured call is judged against the reference for
+        the same positions, after the plain float64 call"""
+        dec0 = rng.choice([-60, -40, -20, -3, 0, 10, 30, 50, 60, 70])
+        ra0 = rng.choice([0, 5, 100, 250, 350, 355, 357])
+        gx, gy = rng.randint(3, 10), rng.randint(1, 6)
+        sites = [((ra0 + a) % 360, dec0 + b) for a in range(gx) for b in range(gy)]
+        n = rng.randint(2, min(30, len(sites)))
+        pts = [rng.choice(sites) for _ in range(n)] if rng.random() < 0.3 else rng.sample(sites, n)
+        L = rng.choice([0.4, 1.05, 1.05, 1.2, 1.45, 2.1, 2.3])
+        names = sorted(R.FLAVOURS)
+        neg = min(p[1] for p in pts) < 0
+        flav = []
+        for _ in range(3):
+            f = rng.choice(names)
+            which = rng.choice(['ra', 'ra', 'dec', 'both', 'both'])
+            spec = {}
+            if which in ('ra', 'both'):
+                spec['ra'] = f
+            if which in ('dec', 'both'):
+                spec['dec'] = 'i4' if (f in R.UNSIGNED and neg) else f
+            if rng.random() < 0.25:
+                spec[rng.choice(['ra', 'dec'])] = rng.choice(['i8', 'f4', 'i2', 'strided', '>f8'])
+            flav.append(spec)
+        cs = None if rng.random() < 0.6 else L * rng.choice([2.0, 4.0, 5.0, 8.0])
+        return {'L': L, 'cs': cs, 'ra': [p[0] for p in pts], 'dec': [p[1] for p in pts], 'flavours': flav, 'variants': []}
 
     def gen_degenerate(self, rng, nr, i):
         """all points at exactly one RA (meridian strip, two points at one RA, RA 0 and the largest double below 360,
@@ -630,9 +663,45 @@ class C05(Check):
                     out.count('chunksize_variants')
             with np.errstate(all='ignore'):
                 self._judge(out, res, p, n, sure if decided else None, tag, case, Sf, L)
+        if case.get('flavours'):
+            self._run_flavours(case, out, S, Sf, L)
         out.nontrivial = span >= 1
         out.info.update({'n': n, 'groups': int(len(sizes)), 'largest_group': int(sizes.max()), 'band_pairs': nband,
                          'decided': bool(decided), 'groups_spanning_chunks': span})
+
+    def _run_flavours(self, case, out, S, Sf, L):
+        """the same positions handed over in other dtypes / memory layouts; judged by the same oracle (single-precision
+        band when numpy converts the argument to radians in float32); argument buffers compared bytewise afterwards"""
+        n = len(case['ra'])
+        ident = np.arange(n)
+        for spec in case['flavours']:
+            args, owners, prec = {}, {}, 'double'
+            for a in ('ra', 'dec'):
+                f = spec.get(a, 'f8')
+                args[a], owners[a] = R.make_arg(case[a], f)
+                if R.FLAVOURS[f] == 'single':
+                    prec = 'single'
+            before = {a: owners[a].tobytes() for a in owners}
+            tag = 'flavour %s (cs=%r)' % (spec, case['cs'])
+            res = self.SG.spheregroup(args['ra'], args['dec'], L, chunksize=case['cs'])
+            out.count('flavour_calls')
+            fl = set(spec.values())
+            if fl & {'i8', 'i4', 'i2', 'u4', 'u2', '>i4', 'strided_i8'}:
+                out.count('flavour_int_calls')
+            if prec == 'single':
+                out.count('flavour_single_precision_calls')
+            if fl & {'strided', 'reversed', 'readonly', '>f8', '>f4', '>i4', 'strided_i8', 'strided_f4'}:
+                out.count('flavour_layout_calls')
+            with np.errstate(all='ignore'):
+                sure, maybe, nband, _ = R.fof(None, None, L, prec, S=S)
+                decided = sure == maybe
+                if not decided:
+                    out.undecide(1)
+                out.count('flavour_multi_member_groups', int((np.bincount(np.array(sure)) >= 2).sum()))
+                self._judge(out, res, ident, n, sure if decided else None, tag, case, Sf, L)
+                changed = [a for a in owners if owners[a].tobytes() != before[a]]
+                out.count('flavour_args_unchanged_checks')
+                out.expect(not changed, 'argument-unchanged', '%s: the call modified its argument array(s) %s' % (tag, changed))
 
     def _judge(self, out, res, p, n, ref, tag, case, Sf, L):
         if not out.expect(isinstance(res, tuple) and len(res) == 4, 'shape', '%s: result is not a 4-tuple' % tag):
